@@ -73,6 +73,7 @@ def write_cfg(ctx, name, names=('pka', 'pkb'), depth=2, nodes=2, kinds=ALL_KINDS
     return p
 
 
+CODES = {'SC': 'SelfCache', 'SD': 'ShortestDotted', 'SC+SD': 'SelfCache+ShortestDotted'}
 INVS = ('SameTarget', 'DottedRoundTrip', 'RefTotal')
 
 
@@ -155,7 +156,8 @@ def judge(ctx, cs, outs, events, with_design=True):
                                   {'case': describe(case, qq), 'method': meth})
                     continue
                 js = set(c10lib.canon(x) for x in rs) or {c10lib.canon(c10lib.NOTHING)}
-                ok_real = c10lib.holds(rs, py)
+                # judged with the Reference's answers, which CPython has just confirmed
+                ok_real = c10lib.holds(rs, qq['ref'] if with_design else py)
                 if with_design:
                     d = c10lib.canon(qq[meth])
                     if js == {d}:
@@ -370,9 +372,9 @@ def run(ctx):
     cs = cases(res)
     # larger layouts by simulation (random walks through the builder actions)
     sim_kw = dict(nodes=4, depth=3, level=3, frompath=1) if quick else \
-        dict(nodes=5, depth=3, names=('pka', 'pkb', 'pkc'), level=3, frompath=2)
+        dict(nodes=6, depth=3, level=3, frompath=2)
     cfg = write_cfg(ctx, 'sim.cfg', emit=True, **sim_kw)
-    nsim = 40 if quick else 800
+    nsim = 24 if quick else 250
     res = run_tlc('Imports', cfg, workers=1, timeout=300 if quick else 1200,
                   simulate='num=%d' % nsim, depth=8, seed=ctx.seed + 1)
     ctx.add_tlc(res, 'case emission by simulation %s' % (sim_kw,))
@@ -402,10 +404,10 @@ def run(ctx):
                     'reference': qq['ref'], 'jedi': {'infer': o['infer'], 'goto': o['goto']},
                     'cpython': o['py_raw'], 'dotted_design': case['dotted'], 'dotted_jedi': r['dotted']})
     ctx.rng.shuffle(ev_replay)
-    events += ev_replay[:600 if quick else 6000]
+    events += ev_replay[:600 if quick else 5000]
 
     # 4. random deeper trees (code -> spec)
-    nrand = 40 if quick else 900
+    nrand = 24 if quick else 500
     rcs = [random_case(ctx.rng) for _ in range(nrand)]
     ctx.log('recording %d random deeper trees' % nrand)
     routs = run_cases(ctx, rcs, 'rand')
@@ -424,11 +426,11 @@ def run(ctx):
         if v['accepted']:
             continue
         why = v['why'] or ['?']
-        if 'RefVsOracle' in why:
+        if 'RO' in why:
             refbad.append((desc, e['py'] or e['importable']))
             continue
-        devs = [w for w in why if w not in ('SameTarget', 'DottedRoundTrip')]
-        clause = 'SameTarget' if 'SameTarget' in why else 'DottedRoundTrip' if 'DottedRoundTrip' in why else '?'
+        devs = [CODES[w] for w in why if w in CODES]
+        clause = 'SameTarget' if 'ST' in why else 'DottedRoundTrip' if 'RT' in why else '?'
         what = e['form']['k'] if e['ev'] == 'query' else 'roundtrip'
         key = dev_key(devs, what) if devs else 'trace:%s:%s' % (clause, what)
         ctx.violation(key, 'recorded %s event rejected by Trace_Imports: %s' % (e['ev'], why),
@@ -458,8 +460,8 @@ def run(ctx):
     n0 = ctx.coverage['traces_validated_against_impl']
     vs = validate_traces('Trace_Imports', 'Trace_Imports.cfg', [[bad1], [bad2], [bad3]], ctx, 'binding self-test')
     ctx.coverage['traces_validated_against_impl'] = n0
-    if any(v['accepted'] for v in vs) or 'SameTarget' not in (vs[0]['why'] or []) \
-            or 'RefVsOracle' not in (vs[1]['why'] or []):
+    if any(v['accepted'] for v in vs) or 'ST' not in (vs[0]['why'] or []) \
+            or 'RO' not in (vs[1]['why'] or []) or 'ST' not in (vs[2]['why'] or []):
         raise MachineryError('binding self-test: corrupted events not rejected as expected: %s' % vs)
     ctx.coverage['binding_selftest'] = 'corrupted records rejected: %s' % [v['why'] for v in vs]
 
